@@ -548,11 +548,23 @@ def dnf_family(rng, dual=False):
     inner, outer = ('Or', 'And') if dual else ('And', 'Or')
     m = rng.randint(1, 5)
     widths = [rng.randint(1, 4) for _ in range(m)]
-    while sum(widths) > 12: widths[widths.index(max(widths))] -= 1
+    while sum(widths) > 7: widths[widths.index(max(widths))] -= 1
+    widths = [w for w in widths if w > 0] or [1]
+    m = len(widths)
     nxt = [0]
-    def lit():
+    def atom():
         a = ('A', nxt[0]); nxt[0] += 1
-        return ('N', a) if rng.random() < 0.4 else a
+        return a
+    def lit():
+        # the literal kinds of the theorem: a | not a | a == b | a != b | not a == b | not a != b | a is None | a is not None
+        k = rng.randrange(10)
+        if k < 4 or nxt[0] >= 10:
+            a = atom()
+            return ('N', a) if k % 2 else a
+        if k < 6: return (rng.choice(['IsN', 'IsNN']), atom())
+        a, b = atom(), atom()
+        c = (rng.choice(['Eq', 'Ne']), a, b)
+        return ('N', c) if k == 9 else c
     alts = []
     for w in widths:
         ls = [lit() for _ in range(w)]
@@ -622,9 +634,11 @@ LEVEL_TEXT = ('Machine-checked proofs (Coq 8.16.1, closed under the global conte
               'for any number of atoms (C03_checker_sound / _truth_sound / _complete); every output of the REAL decompiler is judged by it (vm_compute), exhaustively for all boolean-structure '
               'expressions up to the size bound at 7 positions and randomly beyond; the non-boolean grammar is checked by tree equality. (2) On an executable model of CPython 3.12 code generation + '
               'Pony\'s Decompiler, compared with the real bytecode, Decompiler.instructions, or_jumps, conditions_end and the final AST on every run (no disagreement on ~90k cases in the thorough tier): '
-              'C03_compile_sound (exec of the compiled stream = eval, all expressions without if-else, all 5 positions) and the round trip C03_andor_partial / C03_andor_partial_cnf for the two '
-              'unbounded families "or of ands of literals" and "and of ors of literals" (any number of groups, any widths) in filter position. The full and/or/not round trip is REFUTED (6-operand and/or expression), as are the classes with == operands, if-else and constants: '
-              '17 recorded findings with vm_compute witnesses in Findings/C03.v (the == operand class was repaired in /repo 145f804; the model follows the repaired code). '
+              'C03_compile_sound (exec of the compiled stream = eval for EVERY expression of the fragment incl. if-else, all 5 positions; C03_thread_sound: jump threading preserves exec of any stream); '
+              'round trips decompile (compile e) = Some e for three unbounded families: C03_andor_partial / _cnf ("or of ands" / "and of ors" of literals a, not a, a == b, a != b, not a == b, '
+              'a is (not) None; any number of groups, any widths; filter position) and C03_ifexp_partial ((xa if t1 and ... and tn else xb) in element position). '
+              'The full and/or/not round trip is REFUTED (6-operand and/or expression: a stale targets[pos] limit in process_target; or_jumps is right there), as are most combinations of if-else and the '
+              'constant operands: 17 recorded findings with vm_compute witnesses in Findings/C03.v (the == operand class was repaired in /repo 145f804; the model follows the repaired code). '
               '(3) C03_cache_own_tree: decompile()\'s address-keyed tree cache returns every caller the tree of its own code object for all histories and allocator behaviours, '
               'as long as get_codeobject_id pins the objects - read from the source on every run (Gen/C03CacheKey.v) and exercised by a sweep of short-lived eval-built code objects.')
 LEVEL_NOTE = ('Partial: the proof covers the checker and a sub-family of the round trip; the statement for the whole accepted grammar rests on exhaustive bounded + random validation of the real decompiler '
